@@ -109,14 +109,15 @@ def concretise(case, fmt, rng):
     media = []
     for k, m in enumerate(case["media"], start=1):
         kind = rng.choice(kinds)
-        w, h = rng.randint(16, 60), rng.randint(16, 60)
-        if kind == "raw":
-            data = bytes((rng.randrange(256) for _ in range(w * h * 3)))
-        else:
-            data = make(kind, w, h, rng.randrange(1 << 16) + k)
+        while True:                       # the parts of one package must differ in their bytes
+            w, h = rng.randint(16, 60), rng.randint(16, 60)
+            if kind == "raw":
+                data = bytes((rng.randrange(256) for _ in range(w * h * 3)))
+            else:
+                data = make(kind, w, h, rng.randrange(1 << 16) + k)
+            if all(data != other["data"] for other in media):
+                break
         media.append({"kind": kind, "w": w, "h": h, "data": data, "loc": m["loc"], "sym": list(m["part"])})
-    if len(media) == 2 and media[0]["data"] == media[1]["data"]:
-        raise MachineryError("two generated media files are identical")
     # file names: same basename in two directories when the parts live in different directories
     same = (len(media) == 2 and media[0]["loc"] != media[1]["loc"] and media[0]["kind"] == media[1]["kind"]
             and rng.random() < 0.5)
@@ -250,7 +251,7 @@ def theorems(ctx):
         jobs.append(("sens", (dev, fam, mode), f"ImagesGen sensitivity {fam}/{mode}: {dev} must break the theorem",
                      gen_cfg(fam, mode, need, nunits_of(fam), [dev]), None, True))
     if ctx.thorough:
-        for fam in ("opc1", "epub", "odf", "inline"):
+        for fam in ("opc2", "opc1", "epub", "odf", "inline"):
             jobs.append(("big", fam, f"ImagesGen {fam}: theorem on all cases <= 3 anchors",
                          gen_cfg(fam, "cases", 3, nunits_of(fam)), None, False))
 
@@ -348,6 +349,36 @@ def strip(traces):
     return traces
 
 
+def binding_self_check(ctx, traces):
+    """Corrupt one field of recorded observations: TLC must reject every corrupted trace (the specification,
+    not the harness, is what decides).  Uses PPTX traces (all six fields are MUSTs there) that the strict validation accepts."""
+    import copy
+    picks = [t for t in traces if t["hdr"]["fmt"] == "pptx" and len(t["ev"][0]["D"]) >= 1][:40]   # every field is a MUST there
+    picks = picks[:: max(1, len(picks) // 6)][:6]
+    bad = []
+    for k, t in enumerate(picks):
+        c = copy.deepcopy(t)
+        field = ("n", "w", "m", "ct", "h", "u")[k % 6]
+        for e in c["ev"]:
+            r = e["D"][0]
+            if field == "ct":
+                r["ct"] = "image/tiff"
+            elif field == "m":
+                r["m"] = 0
+            else:
+                r[field] = r[field] + 1
+        c["id"] = f"corrupt:{field}:{t['id']}"
+        bad.append(c)
+    if not bad:
+        raise MachineryError("binding self-check: no accepted trace with an image to corrupt")
+    orig = validate("ImagesTrace", trace_cfg(()), picks, scratch=ctx.scratch, parallel=1, min_chunk=100, diagnose=0)
+    br = validate("ImagesTrace", trace_cfg(()), bad, scratch=ctx.scratch, parallel=1, min_chunk=100, diagnose=0)
+    ctx.ev.tlc_counts("ImagesTrace: binding self-check (one corrupted field per trace must be rejected)", br.distinct, br.states, br.wall_s)
+    for t, tv0, tv in zip(bad, orig.verdicts, br.verdicts):
+        if tv0.accepted and tv.accepted:
+            raise MachineryError(f"binding self-check: TLC accepted a corrupted observation ({t['id']})")
+
+
 # ----------------------------------------------------------------------------- random deeper documents
 def random_case(rng, family):
     """A case outside the TLC bound: up to 4 anchors, 3 units, 2 media, same construction as ImagesGen."""
@@ -440,7 +471,7 @@ def run(ctx):
             for k, c in enumerate(chosen):
                 concs.append(concretise(c["case"], fmt, rng))
                 meta.append((f"{fmt}:{fam}:{k}", c["out"]))
-    nrand = 1200 if ctx.thorough else 80
+    nrand = 600 if ctx.thorough else 80
     for fam, fmts in FAMILY.items():
         for fmt in fmts:
             for k in range(nrand):
@@ -468,6 +499,8 @@ def run(ctx):
     for t in traces[:: max(1, len(traces) // 5)]:
         ev.sample({"fmt": t["hdr"]["fmt"], "anchors": t["hdr"]["anchors"], "media": t["hdr"]["media"],
                    "observed": t["ev"][1]})
+
+    binding_self_check(ctx, traces)
 
     ftraces = fixture_traces(ctx)
     ctx.log(f"{len(ftraces)} repository fixtures with images")
